@@ -123,6 +123,17 @@ def analyse(tt):
                     feats.add("new_source")
     if any(len(a) > 1 for a in attrs):
         feats.add("complex_attr")
+    # (round 4) a minimal trap space with two or more complex attractors; an attractor state whose SYNCHRONOUS successor
+    # (all variables updated at once) leaves the attractor - a walk that is not asynchronous would be noticed there
+    for t in mint:
+        if sum(1 for a in attrs if len(a) > 1 and all(inside(s, t) for s in a)) >= 2:
+            feats.add("multi_complex_in_min_trap")
+    for a in attrs:
+        if len(a) > 1:
+            for s in a:
+                y = sum(tt[i][s] << i for i in range(n))
+                if y not in a:
+                    feats.add("sync_escape")
     return {"features": sorted(feats), "nodes": len(nodes), "attractors": len(attrs), "min_traps": len(mint),
             "depth": max(longest.values())}
 
@@ -150,7 +161,8 @@ def module_nets():
 
 def build(seed: int = 2026, per_feature: int = 12):
     rng = random.Random(seed)
-    want = ["multi_attr_in_min_trap", "maa", "two_motifs_one_child", "shortcut", "shortcut2", "deep", "new_source", "complex_attr"]
+    want = ["multi_attr_in_min_trap", "maa", "two_motifs_one_child", "shortcut", "shortcut2", "deep", "new_source", "complex_attr",
+            "multi_complex_in_min_trap", "sync_escape"]
     got = {w: [] for w in want}
     tries = 0
     while tries < 60000 and any(len(v) < per_feature for v in got.values()):
